@@ -277,6 +277,34 @@ impl SubCheck for RoundTrip {
 					}
 					Err(err) => obs.fail("error/roundtrip-parse", format!("{text}: {err}")),
 				}
+				// the same with the data given as JSON text (member order, number literals and escapes exactly as written):
+				// what is parsed back carries that very text
+				if let Some(d) = data {
+					let dtext = d.compact();
+					let raw = RawValue::from_string(dtext.clone()).expect("rendered JSON is valid");
+					let e = ErrorObject::owned(*code, message.to_string(), Some(raw));
+					let text = serde_json::to_string(&e).unwrap();
+					obs.check(text.contains(&dtext), "error/raw-data-not-emitted-verbatim", || format!("{dtext} not in {text}"));
+					match serde_json::from_str::<ErrorObject>(&text) {
+						Ok(back) => {
+							obs.check(back.data().map(|r| r.get()) == Some(dtext.as_str()), "error/raw-data-changed-by-parsing", || format!("{dtext} -> {:?}", back.data().map(|r| r.get())));
+							obs.check(back == e, "error/roundtrip", || format!("{e:?} -> {text} -> {back:?}"));
+							obs.check(serde_json::to_string(&back).unwrap() == text, "error/reserialise", || format!("{text} -> {}", serde_json::to_string(&back).unwrap()));
+						}
+						Err(err) => obs.fail("error/roundtrip-parse", format!("{text}: {err}")),
+					}
+					// ... also inside a response, as every client parse path sees it
+					let rtext = format!(r#"{{"jsonrpc":"2.0","id":1,"error":{text}}}"#);
+					match serde_json::from_str::<Response<serde_json::Value>>(&rtext) {
+						Ok(r) => match r.payload {
+							ResponsePayload::Error(back) => {
+								obs.check(back.data().map(|r| r.get()) == Some(dtext.as_str()), "error/raw-data-changed-by-parsing", || format!("in a response: {dtext} -> {:?}", back.data().map(|r| r.get())));
+							}
+							_ => obs.fail("error/response-with-error-parsed-as-success", rtext.clone()),
+						},
+						Err(err) => obs.fail("error/roundtrip-parse", format!("{rtext}: {err}")),
+					}
+				}
 			}
 			RtCase::Request { id, method, params, tape } => {
 				obs.class("request");
